@@ -430,6 +430,11 @@ func c20Fetch(x *xctx) *violation {
 	if v := c16Check(x, c, got); v != nil {
 		return v
 	}
+	// Results must not differ from the same fetches run one at a time.
+	seq := c.run(x, simrt.Config{Strategy: simrt.StratRunToBlock}, false, true)
+	if (got.err == nil) != (seq.err == nil) || !bytes.Equal(got.out, seq.out) {
+		return violf("fetch-differs-from-sequential", "concurrent fetch of %v gives err=%v and %d report bytes, one at a time err=%v and %d bytes", c.describe(), got.err, len(got.out), seq.err, len(seq.out))
+	}
 	if got.res.Switches > 0 {
 		x.nontriv[fmt.Sprintf("fetch:%v:%016x", c.describe(), got.res.SwitchSig)] = true
 	}
